@@ -33,7 +33,7 @@ def _one(job):
     cname, m = job
     from . import runner, api
     runner.load_contracts()
-    c = api.BY_NAME[cname]
+    c = next((x for x in api.REGISTRY.values() if x.name == cname), None) or api.BY_NAME[cname]
     t0 = time.time()
     label = f"{m['old']} -> {m['new']} (#{m.get('occurrence', 1)})"
     try:
@@ -61,8 +61,9 @@ def self_test(res, contracts, log):
     jobs = [(c.name, m) for c in contracts for m in c.mutants]
     if not jobs:
         return
-    with mp.Pool(min(16, len(jobs))) as pool:
-        results = pool.map(_one, jobs, chunksize=1)
+    results = smt.pmap(_one, jobs, min(16, len(jobs)),
+                       lambda j: {"function": j[0], "mutant": f"{j[1]['old']} -> {j[1]['new']}", "detected": False,
+                                  "error": "the worker process died or timed out"}, job_timeout=1200)
     for entry in results:
         res.mutants.append(entry)
         if entry["detected"]:
